@@ -29,6 +29,10 @@ DEFS = [
     ("count_tuple_group", "#count { D : sh(D,L) : ps(D,L) } <= 1 :- day(D).", []),
     ("all_global", "{ sh(D,L) } 1 :- ps(D,L).", []),
     ("local_first", "{ sh(L,D) : ps(D,L) } 1 :- day(D).", []),
+    ("hidden_global", "{ sh(D,L) : ps(D,L), L > W } 1 :- day(D), w(W).", [["w", 1]]),
+    ("neg_sibling", "#sum { -1,X : oth(X) : day(X) ; 1,L : sh(D,L) : ps(D,L) } <= 1 :- day(D).", []),
+    ("zero_sibling", "#sum { 0,X : oth(X) : day(X) ; 1,L : sh(D,L) : ps(D,L) } <= 1 :- day(D).", []),
+    ("classical_sibling", "{ -oth(D) ; sh(D,L) : ps(D,L) } 1 :- day(D).", []),
 ]
 
 EXTRAS = [
@@ -73,6 +77,12 @@ USES = [
     ("weak_fun_tuple", ":~ {SH}. [L@1,f(D)]"),
     ("weak_zero_tuple", ":~ {SH}. [L@1,D*0]"),
     ("sum_arith_tuple", "a(X) :- X = #sum {{ L,D/3 : {SH} }}."),
+    ("sum_interval_group", "a(X) :- X = #sum {{ L : sh(1..2,L) }}."),
+    ("sum_arith_group", "a(X) :- X = #sum {{ L : sh(D+1,L), day(D) }}."),
+    ("min_arith_group", "#minimize {{ L@2 : sh(D+1,L), day(D) }}."),
+    ("sum_const_group", "a(X) :- X = #sum {{ L,1 : sh(1,L) }}."),
+    ("weak_const_group", ":~ sh(1,L). [L@1,1]"),
+    ("sum_fun_group", "a(X) :- X = #sum {{ L,D : sh(D,L), day(D) ; L,f(D) : sh(D,L), not day(D+1) }}."),
     ("sum_fun_tuple", "a(X) :- X = #sum {{ L,f(D,1) : {SH} }}."),
     ("weak_prio_is_weight", ":~ {SH}. [L@L,D]"),
     ("min_prio_is_weight", "#minimize {{ L@L,D : {SH} }}."),
@@ -91,6 +101,8 @@ def universe(dname: str, ename: str, tier: str) -> list[str]:
         u.append("ps(1,-2)")
     if dname == "extra_global":
         u += ["w(1)", "w(2)"]
+    if dname == "hidden_global":
+        u += ["w(0)", "w(2)"]
     if dname == "cond_neg":
         u += ["bad(3)"]
     if dname == "two_elems":
